@@ -330,3 +330,28 @@ func Fault(site string) error {
 	}
 	return nil
 }
+
+// SelectOrder is the order in which an instrumented select polls its cases
+// before blocking: a tape-chosen permutation (identity without a simulator),
+// which replaces the runtime's random choice among ready cases.
+func SelectOrder(n int, site string) []int {
+	order := make([]int, n)
+	for i := range order {
+		order[i] = i
+	}
+	c := current()
+	if c == nil {
+		return order
+	}
+	for i := 0; i < n-1; i++ {
+		j := i + c.Tape.Draw(n-i, site)
+		order[i], order[j] = order[j], order[i]
+	}
+	return order
+}
+
+// ZeroOf returns the zero value of a channel's element type.
+func ZeroOf[T any](ch chan T) (z T) { return z }
+
+// ZeroOfR is ZeroOf for receive-only channels.
+func ZeroOfR[T any](ch <-chan T) (z T) { return z }
